@@ -17,6 +17,8 @@ ASSUMPTIONS = [
     "elevated vector: every distinct knot's multiplicity + t (oracle.elevated_vector)",
     "same function decided exactly (oracle.same_function); polynomial result compared with the unique representation",
     "tolerance=None interpolation clause asserted when the reduced degree is >= 1",
+    "rational curves: a forced (tolerance=None) reduction may be refused with ValueError when the projected weight "
+    "function would vanish; then only 'unchanged' is asserted",
 ]
 
 
@@ -189,6 +191,10 @@ def check_generic(case, out):
             out.fail("atomicity", klass, f"degree_decrease({t}) raised ValueError but changed the curve")
         if representable:
             out.fail("exact-reduction-refused", klass, f"U={ref.U} P={ref.P} w={ref.w}: representable at degree {newp} but refused: {exc}")
+        elif tol == "none" and feasible and newp >= 1 and ref.w is not None:
+            # a forced projection of homogeneous coordinates may produce a vanishing weight: the library
+            # refuses then (no valid rational curve exists on that path); only atomicity is asserted
+            out.cls("rational-forced-reduction-refused")
         elif tol == "none" and feasible and newp >= 1:
             out.fail("forced-reduction-refused", klass,
                      f"degree_decrease({t}, None) on U={ref.U} P={ref.P} w={ref.w} raised {exc}")
